@@ -65,119 +65,66 @@ def run(R, tier):
         R.check(good and nq >= 1, "R02.5", key, "query form: `?` (and header separator) consumed, response_unit once before Command::query (tail)", "leaf at `?` must consume it, open exactly one response unit and run the query form: %s" % desc)
 
     # ---- R02.6 branch table -------------------------------------------------------------------------
-    finders = {}
+    # Node::exec on a branch is analysed with `sub` bound to every list of up to two abstract children
+    # (kind x default flag x "its name matches the mnemonic"), so that the table does not depend on how the search
+    # is written (for loop, Iterator::find, helper functions). Expected target per SCPI-99 6.2.4 / 5.1:
+    #   header ends here  -> first default leaf, else first default branch, else -113; nothing consumed, cell untouched
+    #   another mnemonic   -> cell := this branch; first child whose name matches (mnemonic consumed), else first
+    #                         default branch (mnemonic not consumed), else -113
+    def expected(children, descend):
+        if descend:
+            for i, (k, d, m) in enumerate(children):
+                if m:
+                    return i, True
+            for i, (k, d, m) in enumerate(children):
+                if k == "Branch" and d:
+                    return i, False
+            return None, False
+        for i, (k, d, m) in enumerate(children):
+            if k == "Leaf" and d:
+                return i, False
+        for i, (k, d, m) in enumerate(children):
+            if k == "Branch" and d:
+                return i, False
+        return None, False
 
-    def finder(e):
-        # closure def path is in the args snapshot of the find event
-        for a in e.args:
-            if isinstance(a, tuple) and a and a[0] == "closure":
-                if a[1] not in finders:
-                    finders[a[1]] = D.closure_kind(eng, a[1])
-                return finders[a[1]]
-        return None
-
-    DEFAULT_LEAF = {("Leaf", True)}
-    DEFAULT_BRANCH = {("Branch", True)}
-
-    def check_header_end(first):
-        ps = all_paths("Branch", first)
-        key = "branch[%s]" % first
-        desc = "; ".join(p.describe() for p in ps)
-        good = len(ps) == 3
-        kinds = set()
-        for p in ps:
-            finds = [e for e in p.calls if e.name.endswith("Iterator::find")]
-            execs = [e for e in p.calls if e.name.endswith("Node::exec")]
-            fk = [finder(e) for e in finds]
-            if p.consumed or p.has_call(HANDLER_EVENT) or p.has_call(HANDLER_QUERY) or p.has_call("match_program_header"):
-                good = False
-            if leaf_state(p) != "unchanged":
-                good = False
-            if len(fk) == 1 and fk[0] == DEFAULT_LEAF and len(execs) == 1 and p.outcome == "ret:exec":
-                kinds.add("default-leaf")
-            elif len(fk) == 2 and fk[0] == DEFAULT_LEAF and fk[1] == DEFAULT_BRANCH and len(execs) == 1 and p.outcome == "ret:exec":
-                kinds.add("default-branch")
-            elif len(fk) == 2 and fk[0] == DEFAULT_LEAF and fk[1] == DEFAULT_BRANCH and not execs and p.outcome == "Err(UndefinedHeader)":
-                kinds.add("undefined")
-            else:
-                good = False
-            for e in execs:
-                if not _recursion_ok(e, finds):
-                    good = False
-        R.check(good and kinds == {"default-leaf", "default-branch", "undefined"}, "R02.6", key,
-                "header ends on a branch: default leaf, else default branch, else -113; nothing consumed, path cell untouched",
-                "header ending on a branch must try the default leaf, then the default branch, else fail with -113, consuming nothing and leaving the path cell alone: %s" % desc)
-
-    def _recursion_ok(e, finds):
-        # receiver must be the node found by the last find (payload of its Some), cells passed through
-        a0 = e.args[0]
-        ok = isinstance(a0, tuple)
-        s = repr(a0)
-        ok = ok and ("find" in s)
-        a1 = e.args[1]
-        ok = ok and isinstance(a1, tuple) and a1[0] == "ref" and a1[1] == "leafcell"
-        ok = ok and e.args[4][0] == "ref" and e.args[4][1] == "tokens" and e.args[5][0] == "ref" and e.args[5][1] == "response"
-        return ok
-
-    for first in ["ProgramHeaderSeparator", "ProgramMessageUnitSeparator", "HeaderQuerySuffix", M.END]:
-        check_header_end(first)
-
-    def check_descend(first, second):
-        ps = all_paths("Branch", first, second)
-        key = "branch[%s%s]" % (first, "," + second if second else "")
-        desc = "; ".join(p.describe() for p in ps[:8])
-        good = len(ps) >= 3
-        kinds = set()
-        pre = ["HeaderMnemonicSeparator"] if first == "HeaderMnemonicSeparator" else []
-        for p in ps:
-            if p.outcome == "cut":
+    lists = D.child_lists(2)
+    n_rows = 0
+    for ctx, stream, descend in (("ProgramHeaderSeparator", ["ProgramHeaderSeparator"], False), ("ProgramMessageUnitSeparator", ["ProgramMessageUnitSeparator"], False), ("HeaderQuerySuffix", ["HeaderQuerySuffix"], False), (M.END, [M.END], False),
+                                 ("ProgramMnemonic", ["ProgramMnemonic"], True), ("HeaderMnemonicSeparator,ProgramMnemonic", ["HeaderMnemonicSeparator", "ProgramMnemonic"], True)):
+        bad = []
+        pre = ["HeaderMnemonicSeparator"] if stream[0] == "HeaderMnemonicSeparator" else []
+        for kids in lists:
+            ps = D.exec_children(kids, stream)
+            n_rows += 1
+            tgt, consume = expected(kids, descend)
+            label = "[%s]" % ",".join("%s%s%s" % (k[0], "d" if d else "-", "m" if m else "-") for k, d, m in kids)
+            if len(ps) != 1:
+                bad.append("%s: %d paths (%s)" % (label, len(ps), "; ".join(p.describe() for p in ps[:3])))
                 continue
-            finds = [e for e in p.calls if e.name.endswith("Iterator::find")]
+            p = ps[0]
             execs = [e for e in p.calls if e.name.endswith("Node::exec")]
-            matches = [e for e in p.calls if e.name.endswith("match_program_header")]
-            if p.has_call(HANDLER_EVENT) or p.has_call(HANDLER_QUERY):
-                good = False
-            if leaf_state(p) != "self":
-                good = False
-            if execs and not finds:
-                # matched a named child: mnemonic consumed, recursion into that child
-                e = execs[0]
-                lastm = matches[-1] if matches else None
-                ok = p.consumed == pre + ["ProgramMnemonic"] and len(execs) == 1 and p.outcome == "ret:exec" and lastm is not None
-                ok = ok and D.assumed(p, "match_program_header", len(matches)) is True
-                # receiver: the child whose name was just compared (same slice-iterator item)
-                ok = ok and "next" in repr(e.args[0]) and e.args[1][0] == "ref" and e.args[1][1] == "leafcell"
-                # the compared name is the child's own name and the token is the peeked mnemonic
-                ok = ok and "ProgramMnemonic" in repr(lastm.args[0])
-                if ok:
-                    kinds.add("child")
-                else:
-                    good = False
-            elif finds:
-                fk = [finder(e) for e in finds]
-                # the default branch is searched only after every named child was tried
-                idx_find = p.index_of("Iterator::find")
-                later_match = any(e.kind == "call" and e.name.endswith("match_program_header") for e in p.trace[idx_find:])
-                if len(fk) != 1 or fk[0] != DEFAULT_BRANCH or later_match or p.consumed != pre:
-                    good = False
-                elif execs:
-                    if len(execs) == 1 and p.outcome == "ret:exec" and _recursion_ok(execs[0], finds):
-                        kinds.add("default-branch")
-                    else:
-                        good = False
-                else:
-                    if p.outcome == "Err(UndefinedHeader)":
-                        kinds.add("undefined")
-                    else:
-                        good = False
+            ok = not p.has_call(HANDLER_EVENT) and not p.has_call(HANDLER_QUERY)
+            ok = ok and leaf_state(p) == ("self" if descend else "unchanged")
+            if not descend:
+                ok = ok and not p.has_call("match_program_header")
+            if tgt is None:
+                ok = ok and p.outcome == "Err(UndefinedHeader)" and not execs and p.consumed == pre
             else:
-                good = False
-        R.check(good and kinds == {"child", "default-branch", "undefined"}, "R02.6", key,
-                "descend: path cell := this branch; first matching named child consumes the mnemonic and recurses; else default branch (not consuming); else -113",
-                "descending from a branch must record the branch in the path cell, try named children first (consuming the mnemonic), then the default branch without consuming, else -113: %s" % desc)
+                ok = ok and len(execs) == 1 and p.outcome == "ret:exec" and p.consumed == pre + (["ProgramMnemonic"] if consume else [])
+                if ok:
+                    e = execs[0]
+                    a0, a1 = e.args[0], e.args[1]
+                    ok = isinstance(a0, tuple) and a0[0] == "ref" and a0[1] == "child%d" % tgt
+                    ok = ok and isinstance(a1, tuple) and a1[0] == "ref" and a1[1] == "leafcell"
+                    ok = ok and e.args[4][0] == "ref" and e.args[4][1] == "tokens" and e.args[5][0] == "ref" and e.args[5][1] == "response"
+            if not ok:
+                bad.append("children %s: expected %s, got %s (consumed %s, path cell %s)" % (label, ("recursion into child %d%s" % (tgt, ", mnemonic consumed" if consume else "")) if tgt is not None else "-113 Undefined header", p.describe(), p.consumed, leaf_state(p)))
+        R.check(not bad, "R02.6", "branch[%s]" % ctx,
+                ("descend: path cell := this branch; first child whose name matches consumes the mnemonic and recurses; else first default branch (not consuming); else -113" if descend else "header ends on a branch: first default leaf, else first default branch, else -113; nothing consumed, path cell untouched") + " - over %d child lists" % len(lists),
+                "; ".join(bad[:4]))
+    R.count("exec_children_rows", n_rows)
 
-    check_descend("ProgramMnemonic", None)
-    check_descend("HeaderMnemonicSeparator", "ProgramMnemonic")
     for second in M.NONDATA + ["CharacterProgramData", "ERR", M.END]:
         if second == "ProgramMnemonic":
             continue
@@ -293,9 +240,13 @@ def run(R, tier):
         tys = [f["ty"] for v in node["variants"] for f in v["fields"]]
         R.check(not any("&mut" in t or "Cell" in t for t in tys), "R02.7", "node-immutable", "Node holds only shared references: %s" % tys, "Node contains mutable state: %s" % tys)
     # ---- R02.8 routing --------------------------------------------------------------------------------------
-    mb = u.body("scpi::parser::tokenizer::token::Token::match_program_header")
-    calls = [c.name for c in mb.calls()]
-    R.check(calls == ["scpi::parser::tokenizer::util::mnemonic_match"], "R02.8", "match_program_header", "delegates to util::mnemonic_match", "match_program_header must compare through util::mnemonic_match only, calls: %s" % calls)
+    # which child a header selects is decided by Token::match_program_header: it must apply the full mnemonic rule to
+    # header mnemonics (table shared with C03, where the rule itself is decided)
+    from . import c03
+    c03.header_match_table(R, "R02.8")
+    # ---- R02.9 lexer typestate between units -----------------------------------------------------------------------
+    from . import lexer as LX
+    LX.check_unit_separator_typestate(R, "R02.9")
     R.trust("IEEE 488.2 7.6 / SCPI-99 6.2.4 compound header rules as encoded in the expected tables of sa/rules/c02.py")
 
 
